@@ -266,8 +266,10 @@ theorem newPlus_sinv (p : Nat) (e : Plus) (h : newPlus p = some e) : SInv e := b
   · cases h
   · injection h with h; subst h; exact ⟨fun _ => trivial, fun _ => trivial⟩
 
-theorem toNormal_sinv (h : Plus) : SInv (toNormal h) :=
-  ⟨fun h' => by rw [toNormal_sparse] at h'; cases h', fun h' => by rw [toNormal_sparse] at h'; cases h'⟩
+theorem sinv_of_dense (c : Plus) (h : c.sparse = false) : SInv c :=
+  ⟨(fun h' => by rw [h] at h'; cases h'), (fun h' => by rw [h] at h'; cases h')⟩
+
+theorem toNormal_sinv (h : Plus) : SInv (toNormal h) := sinv_of_dense _ (toNormal_sparse h)
 
 theorem add_sinv (h : Plus) (s : SInv h) (x : Nat) : SInv (add h x) := by
   unfold add
@@ -285,15 +287,12 @@ theorem add_sinv (h : Plus) (s : SInv h) (x : Nat) : SInv (add h x) := by
     · exact s2
   · have hs' : h.sparse = false := by simpa using hs
     rw [if_neg hs]
-    exact ⟨fun h' => by simp only at h'; rw [hs'] at h'; cases h', fun h' => by simp only at h'; rw [hs'] at h'; cases h'⟩
+    exact sinv_of_dense _ hs'
 
 theorem addAll_sinv (xs : List Nat) (h : Plus) (s : SInv h) : SInv (addAll h xs) := by
   induction xs generalizing h with
   | nil => exact s
   | cons x xs ih => exact ih (add h x) (add_sinv h s x)
-
-theorem sinv_of_dense (c : Plus) (h : c.sparse = false) : SInv c :=
-  ⟨fun h' => by rw [h] at h'; cases h', fun h' => by rw [h] at h'; cases h'⟩
 
 /-- the sketch read back has the normalised registers of the one written -/
 theorem marshal_regs (h h2 : Plus) (w : WF h) (hp : h2.p = h.p) (hsp : h2.sparse = h.sparse)
